@@ -1,6 +1,7 @@
 SPECIFICATION Spec
 CONSTANTS
-  Fams = {"argmax", "reduce", "softmax"}
+  Fams = {"argmax", "reduce", "softmax", "long"}
+  LongShapes <- LongShapesQuick
   MaxRank = 4
   MaxExt = 3
 INVARIANT Laws
